@@ -1,5 +1,6 @@
 """C16 - hard-coded secret, temp-path, bind-all, permission checks match their patterns."""
 import family
+import scancorr
 from oracles import c16
 
 PROP_FILES = ["theories/Props/C16.v", "theories/Inst/C16_inst.v"]
@@ -13,4 +14,4 @@ def run(R, replay=None):
               "calls over the 12-bit modes (all 4096 in the thorough tier) x spellings; scanned by the real bandit and by the "
               "Gallina plugin models; the statement is evaluated independently on each program's AST; non-trivial = at "
               "least one finding or internal error")
-    family.run_family(R, PROP_FILES, DEPS, ["gen.fam_secrets"], c16.oracle, "secrets family", max_quick=2500)
+    family.run_family(R, PROP_FILES, DEPS, ["gen.fam_secrets"], c16.oracle, "secrets family", max_quick=2500, eq=scancorr.FINDINGS_AND_ERRORS)
